@@ -31,6 +31,9 @@ func Open(filename, password string) (*DB, error) {
 		return nil, fmt.Errorf("error creating sqlite connector: %w", err)
 	}
 	db := sql.OpenDB(connector)
+	// database/sql pools connections; with more than one connection to the
+	// file concurrent requests fail with "database is locked"
+	db.SetMaxOpenConns(1)
 	if err := Init(db); err != nil {
 		return nil, err
 	}
